@@ -24,5 +24,6 @@ theorem exp_of_eigendecomposition {n : Type*} [Fintype n] [DecidableEq n]
     rw [this, Matrix.mul_smul, Matrix.smul_mul]
   rw [h1, Matrix.exp_conj _ _ hA, Matrix.exp_diagonal]
   congr 2
+  rw [Pi.exp_def]
   ext k
-  simp [Pi.exp_apply, Real.exp_eq_exp_ℝ]
+  simp [Real.exp_eq_exp_ℝ]
